@@ -1150,6 +1150,14 @@ fn hang_binop_expression(
                 shape.increment_additional_indent()
             };
 
+            // If the LHS is passed back to hang_binop_expression, it still needs to know that it is the
+            // LHS of `^`: parentheses around a unary operator cannot be removed there, e.g. `(-X) ^ Y`
+            let lhs_expression_context = if let BinOp::Caret(_) = binop {
+                ExpressionContext::BinaryLHSExponent
+            } else {
+                expression_context
+            };
+
             let side_to_hang = if is_right_associative {
                 ExpressionSide::Right
             } else {
@@ -1189,7 +1197,7 @@ fn hang_binop_expression(
                                 },
                                 lhs_shape,
                                 lhs_range,
-                                expression_context,
+                                lhs_expression_context,
                             ),
                             if contains_comments(&*rhs) {
                                 hang_binop_expression(
@@ -1217,7 +1225,7 @@ fn hang_binop_expression(
                                     binop.clone(),
                                     shape,
                                     lhs_range,
-                                    expression_context,
+                                    lhs_expression_context,
                                 )
                             } else {
                                 let context = if let BinOp::Caret(_) = binop {
@@ -1252,7 +1260,7 @@ fn hang_binop_expression(
                             binop.to_owned(),
                             shape,
                             lhs_range,
-                            expression_context,
+                            lhs_expression_context,
                         )
                     } else {
                         let context = if let BinOp::Caret(_) = binop {
@@ -1434,13 +1442,19 @@ fn format_hanging_expression_(
         }
         Expression::BinaryOperator { lhs, binop, rhs } => {
             // Don't format the lhs and rhs here, because it will be handled later when hang_binop_expression calls back for a Value
+            let lhs_context = if let BinOp::Caret(_) = binop {
+                // `(-X) ^ Y`: the parentheses on the LHS must be kept
+                ExpressionContext::BinaryLHSExponent
+            } else {
+                ExpressionContext::UnaryOrBinary
+            };
             let lhs = hang_binop_expression(
                 ctx,
                 *lhs.to_owned(),
                 binop.to_owned(),
                 shape,
                 lhs_range,
-                ExpressionContext::UnaryOrBinary,
+                lhs_context,
             );
 
             let current_shape = shape.take_last_line(&lhs) + 1; // 1 = space before binop
